@@ -304,3 +304,105 @@ class Origins:
 
     def crs_roots(self, e: ast.AST) -> Set[str]:
         return {r for r, c in self.origin(e) if c}
+
+
+def fold_if(st: ast.AST) -> Optional[ast.stmt]:
+    """The loader re-writes `t = A if c else B` / `return A if c else B` as if/else statements.  For rules that want to
+    look at a two-way choice *as a value*, this is the inverse view: an `if` whose two arms are single assignments to the
+    same target(s), or single returns, is handed back as a synthetic `Assign`/`Return` with a conditional expression
+    (elif chains nest).  The synthetic node carries the location and parent of the `if`; nothing in the tree changes."""
+    if not isinstance(st, ast.If) or len(st.body) != 1 or len(st.orelse) != 1:
+        return None
+    a, b = st.body[0], st.orelse[0]
+    if isinstance(b, ast.If):
+        b = fold_if(b)  # type: ignore[assignment]
+        if b is None:
+            return None
+    if isinstance(a, ast.If):
+        a = fold_if(a)  # type: ignore[assignment]
+        if a is None:
+            return None
+    new: Optional[ast.stmt] = None
+    if isinstance(a, ast.Assign) and isinstance(b, ast.Assign) and [ast.dump(t) for t in a.targets] == [ast.dump(t) for t in b.targets]:
+        new = ast.Assign(targets=a.targets, value=ast.IfExp(test=st.test, body=a.value, orelse=b.value), type_comment=None)
+    elif isinstance(a, ast.AnnAssign) and isinstance(b, ast.AnnAssign) and a.value is not None and b.value is not None and ast.dump(a.target) == ast.dump(b.target):
+        new = ast.Assign(targets=[a.target], value=ast.IfExp(test=st.test, body=a.value, orelse=b.value), type_comment=None)
+    elif isinstance(a, ast.Return) and isinstance(b, ast.Return) and a.value is not None and b.value is not None:
+        new = ast.Return(value=ast.IfExp(test=st.test, body=a.value, orelse=b.value))
+    if new is None:
+        return None
+    ast.copy_location(new, st)
+    ast.copy_location(new.value, st)  # type: ignore[union-attr]
+    new._parent = getattr(st, "_parent", None)  # type: ignore[attr-defined]
+    new.value._parent = new  # type: ignore[union-attr]
+    new._folded_from = st  # type: ignore[attr-defined]
+    if hasattr(st, "_mod"):
+        new._mod = st._mod  # type: ignore[attr-defined]
+        new.value._mod = st._mod  # type: ignore[union-attr]
+    return new
+
+
+def with_folded(nodes) -> List[ast.AST]:
+    """`nodes` plus the conditional-expression view (fold_if) of every foldable `if` among them, and its IfExp."""
+    out: List[ast.AST] = []
+    for n in nodes:
+        out.append(n)
+        if isinstance(n, ast.If):
+            f = fold_if(n)
+            if f is not None:
+                out.append(f)
+                out.append(f.value)  # type: ignore[union-attr]
+    return out
+
+
+def expand_locals(fn: ast.AST, e: ast.AST, depth: int = 3, keep: Optional[Set[str]] = None) -> ast.AST:
+    """`e` with every local of `fn` that is bound exactly once - by `x = <expr>` or element-wise by `x, y = <e1>, <e2>` -
+    replaced by a copy of its defining expression (repeated `depth` times).  A value computed in place and the same value
+    reaching its use through a temporary are the same program."""
+    import copy as _copy
+
+    from .loader import walk_own
+
+    binds: Dict[str, List[Optional[ast.AST]]] = {}
+    for n in walk_own(fn):
+        if isinstance(n, ast.Assign):
+            for t in n.targets:
+                if isinstance(t, ast.Name):
+                    binds.setdefault(t.id, []).append(n.value)
+                elif isinstance(t, (ast.Tuple, ast.List)):
+                    ew = isinstance(n.value, (ast.Tuple, ast.List)) and len(n.value.elts) == len(t.elts) and not any(isinstance(x, ast.Starred) for x in list(t.elts) + list(n.value.elts))
+                    for i, x in enumerate(t.elts):
+                        for nm in ast.walk(x):
+                            if isinstance(nm, ast.Name):
+                                binds.setdefault(nm.id, []).append(n.value.elts[i] if ew and isinstance(x, ast.Name) else None)  # type: ignore[union-attr]
+        elif isinstance(n, (ast.AugAssign, ast.AnnAssign, ast.NamedExpr)):
+            t = n.target
+            if isinstance(t, ast.Name):
+                binds.setdefault(t.id, []).append(n.value if isinstance(n, ast.AnnAssign) else None)
+        elif isinstance(n, (ast.For, ast.comprehension)):
+            for nm in ast.walk(n.target):
+                if isinstance(nm, ast.Name):
+                    binds.setdefault(nm.id, []).append(None)
+        elif isinstance(n, ast.With):
+            for it in n.items:
+                if it.optional_vars is not None:
+                    for nm in ast.walk(it.optional_vars):
+                        if isinstance(nm, ast.Name):
+                            binds.setdefault(nm.id, []).append(None)
+    args = getattr(fn, "args", None)
+    params = {a.arg for a in (args.posonlyargs + args.args + args.kwonlyargs)} if args is not None else set()
+    one = {k: v[0] for k, v in binds.items() if len(v) == 1 and v[0] is not None and k not in params and k not in (keep or set())}
+
+    class _T(ast.NodeTransformer):
+        def visit_Name(self, node: ast.Name):
+            if isinstance(node.ctx, ast.Load) and node.id in one:
+                return ast.copy_location(_copy.deepcopy(one[node.id]), node)
+            return node
+
+    cur = _copy.deepcopy(e)
+    for _ in range(depth):
+        new = _T().visit(cur)
+        if ast.dump(new) == ast.dump(cur):
+            break
+        cur = new
+    return cur
